@@ -791,6 +791,12 @@ fn matrix_cells(rng: &mut Rng, shard: usize, nshards: usize, budget: usize) -> V
                 }
                 let f = format!("{}_TO_{}", x.name(), y.name());
                 for v in bounds(*x) {
+                    if *x == Ty::LWord && matches!(v, Sv::I(b) if b > i64::MAX as i128) {
+                        // no literal form above 2^63-1: build the value in a ULINT and convert
+                        let (init, pre) = init_for("u", Ty::ULInt, v);
+                        std_cells.push((format!("{f} {:?}", v), format!("PROGRAM Main\nVAR\n  u : ULINT := {init};\n  a : LWORD;\n  r : {};\nEND_VAR\n{pre}a := ULINT_TO_LWORD(u);\nr := {f}(a);\nEND_PROGRAM\n", y.name())));
+                        continue;
+                    }
                     let (init, pre) = init_for("a", *x, v);
                     std_cells.push((format!("{f} {:?}", v), format!("PROGRAM Main\nVAR\n  a : {} := {init};\n  r : {};\nEND_VAR\n{pre}r := {f}(a);\nEND_PROGRAM\n", x.name(), y.name())));
                 }
@@ -855,7 +861,7 @@ fn matrix_cells(rng: &mut Rng, shard: usize, nshards: usize, budget: usize) -> V
             ("function", "FUNCTION F : INT\nVAR_INPUT\n  a : INT;\n  b : INT;\nEND_VAR\nVAR_TEMP\n  t : INT := a / b;\nEND_VAR\nF := t;\nEND_FUNCTION", "n := F(INT#7, z);"),
             ("function-var", "FUNCTION F : INT\nVAR_INPUT\n  a : INT;\n  b : INT;\nEND_VAR\nVAR\n  t : INT := a / b;\nEND_VAR\nF := t;\nEND_FUNCTION", "n := F(INT#7, z);"),
             ("fb", "FUNCTION_BLOCK B\nVAR_INPUT\n  a : INT;\n  b : INT;\nEND_VAR\nVAR_TEMP\n  t : INT := a / b;\nEND_VAR\nVAR_OUTPUT\n  q : INT;\nEND_VAR\nq := t;\nEND_FUNCTION_BLOCK", "fb(a := INT#7, b := z);\nn := fb.q;"),
-            ("method", "FUNCTION_BLOCK B\nMETHOD M : INT\nVAR_INPUT\n  a : INT;\n  b : INT;\nEND_VAR\nVAR_TEMP\n  t : INT := a / b;\nEND_VAR\nM := t;\nEND_METHOD\nEND_FUNCTION_BLOCK", "n := fb.M(INT#7, z);"),
+            ("method", "FUNCTION_BLOCK B\nMETHOD PUBLIC M : INT\nVAR_INPUT\n  a : INT;\n  b : INT;\nEND_VAR\nVAR_TEMP\n  t : INT := a / b;\nEND_VAR\nM := t;\nEND_METHOD\nEND_FUNCTION_BLOCK", "n := fb.M(INT#7, z);"),
             ("overflowing-initialiser", "FUNCTION F : INT\nVAR_INPUT\n  a : INT;\n  b : INT;\nEND_VAR\nVAR_TEMP\n  t : INT := a * b;\nEND_VAR\nF := t;\nEND_FUNCTION", "n := F(INT#32767, z + INT#2);"),
         ] {
             let fbdecl = if decl.contains("FUNCTION_BLOCK") { "  fb : B;\n" } else { "" };
@@ -869,12 +875,26 @@ fn matrix_cells(rng: &mut Rng, shard: usize, nshards: usize, budget: usize) -> V
             }
             sampled_std.push((label.to_string(), format!("matrix|{label}"), text));
         }
+        // time / date and BCD functions at their limits (variables, so nothing is folded at compile time)
+        for (class, call) in [
+            ("time-function", "vt := ADD_TIME(tmax, tmax);"), ("time-function", "vt := SUB_TIME(T#0s, tmax);"), ("time-function", "vt := SUB_TIME(SUB_TIME(T#0s, tmax), tmax);"), ("time-function", "vt := MUL_TIME(tmax, limax);"),
+            ("time-function", "vt := DIV_TIME(tmax, zi);"), ("time-function", "vt := MUL_TIME(tmax, LREAL#1.0e300);"), ("time-function", "vt := DIV_TIME(tmax, zr);"), ("time-function", "vt := MUL_TIME(tmax, zr / zr);"),
+            ("time-function", "vdt := ADD_DT_TIME(dtmax, tmax);"), ("time-function", "vdt := SUB_DT_TIME(DT#1970-01-01-00:00:00, tmax);"), ("time-function", "vdt := CONCAT_DATE_TOD(D#2262-04-11, TOD#23:59:59);"),
+            ("time-function", "vd := DT_TO_DATE(dtmax);"), ("time-function", "vtd := DT_TO_TOD(dtmax);"), ("time-function", "vtd := ADD_TOD_TIME(TOD#23:59:59, T#2s);"), ("time-function", "vtd := SUB_TOD_TIME(TOD#00:00:00, T#2s);"),
+            ("time-function", "vt := SUB_DT_DT(dtmax, DT#1970-01-01-00:00:00);"), ("time-function", "vt := SUB_DATE_DATE(D#1970-01-01, D#2262-04-11);"), ("time-function", "vt := SUB_TOD_TOD(TOD#00:00:00, TOD#23:59:59);"),
+            ("time-function", "i := DAY_OF_WEEK(D#1970-01-01) + DAY_OF_WEEK(D#2262-04-11);"), ("time-function", "vd := CONCAT_DATE(INT#2262, INT#13, INT#32);"), ("time-function", "vd := CONCAT_DATE(INT#-1, INT#0, INT#0);"),
+            ("time-function", "vtd := CONCAT_TOD(INT#24, INT#60, INT#60, INT#1000);"), ("time-function", "vdt := CONCAT_DT(INT#9999, INT#12, INT#31, INT#23, INT#59, INT#59, INT#999);"),
+            ("bcd", "b := TO_BCD_BYTE(USINT#255);"), ("bcd", "b := TO_BCD_BYTE(USINT#99);"), ("bcd", "w := UINT_TO_BCD_WORD(UINT#65535);"), ("bcd", "us := BCD_TO_USINT(BYTE#16#99);"),
+            ("bcd-invalid-digit", "us := BCD_TO_USINT(BYTE#16#FF);"), ("bcd-invalid-digit", "ui := WORD_BCD_TO_UINT(WORD#16#1A00);"),
+        ] {
+            std_cells.push((format!("{class} {call}"), format!("PROGRAM Main\nVAR\n  vt : TIME; vd : DATE; vdt : DT; vtd : TOD; i : INT; zi : INT; zr : LREAL; b : BYTE; w : WORD; us : USINT; ui : UINT;\n  tmax : TIME := T#106751d; limax : LINT := LINT#9223372036854775807; dtmax : DT := DT#2262-04-11-23:47:16;\nEND_VAR\n{call}\nEND_PROGRAM\n")));
+        }
         for (label, text) in std_cells {
             n += 1;
             if n % nshards != shard {
                 continue;
             }
-            let class = if label.contains("_TO_") { "conversion" } else if (label.starts_with("SH") || label.starts_with("RO")) && label.ends_with("by -1") { "shift-negative-count" } else if label.starts_with("SH") || label.starts_with("RO") { "shift" } else if label.starts_with("num ") { "numeric-function" } else { "string-function" };
+            let class = if label.starts_with("time-function") { "time-function" } else if label.starts_with("bcd-invalid") { "bcd-invalid-digit" } else if label.starts_with("bcd ") { "bcd" } else if label.contains("_TO_") { "conversion" } else if (label.starts_with("SH") || label.starts_with("RO")) && label.ends_with("by -1") { "shift-negative-count" } else if label.starts_with("SH") || label.starts_with("RO") { "shift" } else if label.starts_with("num ") { "numeric-function" } else { "string-function" };
             sampled_std.push((label, format!("matrix|std|{class}"), text));
         }
     }
